@@ -199,6 +199,7 @@ def check(ctx, report):
     if ia is not None and not any(isinstance(n, ast.Call) and isinstance(n.func, ast.Attribute) and n.func.attr == 'extend' for n in ast.walk(ia.node)):
         report.add('C12.R6', ia.construct + '@atomic', '__iadd__ does not go through the atomic extend')
     item_size_agreement(ctx, report, ab)
+    derived_state(ctx, report)
     # enum coded vectors book the width of the fallback class per item and write the width of the item class: the two are equal
     # (shared with C10.R3)
     report.rule('C12.R11', 'enum coded vectors: the width booked per item (fallback class) is the width written per item (code of the item class)')
@@ -377,6 +378,78 @@ def size_form_by_evaluation(ctx, f):
     if t[2] == 4 and t[0] in (7, 'err') and t[1] in (13, 'err'):
         return 'text-item'
     return 'unknown:%r' % (t,)
+
+
+def derived_state(ctx, report, RULE='C12.R12'):
+    """A vector class that keeps state of its own next to the item list (a lookup table of positions, a cached length ...) has to
+    drop or update it in *every* operation that changes the list - otherwise the sequence interface answers from the stale
+    state, and the vector no longer holds what a plain list would hold after the same edits.  For every subclass of the vector
+    base that writes an instance attribute the base does not know: each method of the class chain that mutates ``self._items``
+    must, itself or through the methods of ``self`` it calls, write that attribute too."""
+    model = ctx.model
+    report.rule(RULE, 'state a vector class keeps next to its item list is rewritten by every operation that changes the list')
+    ab = model.cls('ArrayBase')
+    base_attrs = {'_items', '_items_size', 'param'}
+
+    def me_of(fn):
+        a = fn.node.args.posonlyargs + fn.node.args.args
+        return a[0].arg if a else None
+
+    def writes(fn, attr):
+        me = me_of(fn)
+        return any(isinstance(x, ast.Attribute) and x.attr == attr and isinstance(x.ctx, (ast.Store, ast.Del)) and isinstance(x.value, ast.Name) and
+                   x.value.id == me for x in ast.walk(fn.node))
+
+    def mutates_items(fn):
+        return any(mutation_of_items(st) for st in ast.walk(fn.node))
+
+    def reaches_write(k, fn, attr, seen):
+        if id(fn) in seen:
+            return False
+        seen.add(id(fn))
+        if writes(fn, attr):
+            return True
+        me = me_of(fn)
+        for x in ast.walk(fn.node):
+            if isinstance(x, ast.Call) and isinstance(x.func, ast.Attribute):
+                recv = x.func.value
+                if isinstance(recv, ast.Name) and recv.id == me:
+                    g = k.resolve(x.func.attr)
+                elif isinstance(recv, ast.Call) and ast.unparse(recv.func) == 'super':
+                    g = next((b.methods[x.func.attr] for b in k.mro[1:] if isinstance(b, ClassInfo) and x.func.attr in b.methods and
+                              b.methods[x.func.attr] is not fn), None)
+                else:
+                    g = None
+                if g is not None and not g.module.external and reaches_write(k, g, attr, seen):
+                    return True
+        return False
+    n = 0
+    for k in [ab] + model.all_subclasses(ab):
+        own = set()
+        for b in [x for x in k.mro if isinstance(x, ClassInfo) and x.is_subclass_of('ArrayBase') and x is not ab]:
+            for fn in b.methods.values():
+                me = me_of(fn)
+                for x in ast.walk(fn.node):
+                    if isinstance(x, ast.Attribute) and isinstance(x.ctx, ast.Store) and isinstance(x.value, ast.Name) and x.value.id == me and \
+                            x.attr not in base_attrs and not any(f.name == x.attr for f in k.attrs_fields()):
+                        own.add(x.attr)
+        n += 1
+        if not own:
+            continue
+        mutators = {}
+        for b in [x for x in k.mro if isinstance(x, ClassInfo)]:
+            for name, fn in b.methods.items():
+                if name not in mutators and name not in ('__attrs_post_init__', '__init__') and k.resolve(name) is fn and mutates_items(fn):
+                    mutators[name] = fn
+        for attr in sorted(own):
+            for name, fn in sorted(mutators.items()):
+                n += 1
+                if not reaches_write(k, fn, attr, set()):
+                    report.add(RULE, '%s@state[%s,%s]' % (k.construct, attr, name),
+                               '%s keeps %s next to its items; %s (%s) changes the item list and neither it nor a method it calls rewrites %s: '
+                               'the sequence interface then answers from what the list held before' % (k.name, attr, name, fn.construct, attr))
+    report.count(RULE, n)
+    report.floor(RULE, 40, 'vector classes and their mutators')
 
 
 def kinds_sized_apart(ctx, report, RULE, c, prm, gis):
